@@ -126,6 +126,14 @@ func InspectSymbolContent(name string) string {
 		firstLetter = false
 	}
 
+	if !quotes && len(name) > 1 && name[0] == '_' {
+		// the lexer only continues an identifier after a leading `_` with a cased letter
+		second, _ := utf8.DecodeRuneInString(name[1:])
+		if !unicode.IsUpper(second) && !unicode.IsLower(second) {
+			quotes = true
+		}
+	}
+
 	if quotes {
 		return fmt.Sprintf(`"%s"`, result.String())
 	}
